@@ -57,6 +57,20 @@
 // Without a plan a Conn behaves like a TCP connection with an unbounded socket buffer: Write never
 // blocks and Read returns whatever is available.
 //
+// # Real sockets
+//
+// WrapListener / WrapConn (SpyListener, SpyConn) give a real net.Listener / net.Conn the same event
+// names and interposition points (accept, read, write, setReadDeadline, close), so that loopback
+// TCP can be driven by the same plans. A *net.UDPConn cannot be wrapped without changing the code
+// path the server takes (it would no longer be a *net.UDPConn).
+//
+// # Waiting for events
+//
+// Log.WaitFor / WaitCount / WaitAny block (with a timeout) until matching events are in the log;
+// events logged before the call count. Log.OnEvent registers a synchronous observer. Conn.Blocked,
+// Listener.Waiting and PacketConn.WaitIdle tell whether the code under test is parked in a
+// Read / Accept / ReadFrom ("the server has consumed every packet").
+//
 // # Typical use
 //
 //	log := memnet.NewLog()
